@@ -53,9 +53,9 @@ fn gen_props(rng: &mut Rng, via: &str) -> Props {
             4 if binary_ok => Some(vec![0, b'=', 0, 0xFF, 0xFE, b'=', 0]),
             5 if binary_ok => Some((0..rng.below(40)).map(|_| rng.below(256) as u8).collect()),
             // key=value exactly at, one below and one above the limit of one TXT string
-            6 => Some(vec![b'v'; room]),
+            6 => Some(vec![if binary_ok && rng.bool() { 0xFE } else { b'v' }; room]),
             7 => Some(vec![b'v'; room.saturating_sub(1)]),
-            8 if rng.below(3) == 0 => Some(vec![b'v'; room + 1]),
+            8 if rng.below(3) == 0 => Some(vec![if binary_ok && rng.bool() { 0xFF } else { b'v' }; room + 1]),
             9 => Some("värde ✓".as_bytes().to_vec()),
             10 => Some(b"=".to_vec()),
             _ => Some(format!("value {i}").into_bytes()),
